@@ -162,7 +162,8 @@ def run(module, cfg, workdir=None, workers=16, timeout=600, args=(), gc='paralle
         if res.violation is None:
             if own and not keep:
                 shutil.rmtree(workdir, ignore_errors=True)
-            raise TLCError('TLC failed on %s/%s:\n%s' % (module, cfg, res.out[-3000:]))
+            i = res.out.find('Error:')
+            raise TLCError('TLC failed on %s/%s:\n%s\n...\n%s' % (module, cfg, res.out[max(0, i - 200):i + 1200], res.out[-1500:]))
     shutil.rmtree(meta, ignore_errors=True)
     if own and not keep:
         shutil.rmtree(workdir, ignore_errors=True)
